@@ -246,7 +246,10 @@ def floyd_warshall_facade(adj, *a, **k):
     from scipy.sparse.csgraph import floyd_warshall as fw
     adj = _np.asarray(adj)
     if adj.dtype == object:
-        adj = symnp.concretize_array(adj)
+        if symnp.is_mask(adj) or symnp.has_sym(adj):
+            adj = symnp.concretize_array(adj)
+        else:
+            adj = symnp.to_float(adj)      # edge weights (e.g. a Markov chain's probabilities)
     r = fw(adj, *a, **k)
     # returned as a facade array so that a (possibly symbolic) mask used to index it is concretised
     return r.view(symnp.SymArray)
